@@ -211,6 +211,16 @@ fn views_any<E: Elem>(d: &mut Draw) -> Outcome {
     vcore::tryo!(views_point1::<E>(d));
     vcore::tryo!(views_point2::<E>(d));
     vcore::tryo!(views_point3::<E>(d));
+    // the short constructors
+    let t: Vec<E> = tags(d, 4);
+    let c = |i: usize| t[i].clone();
+    ensure!(cgmath::vec1(c(0)) == Vector1::new(c(0)), "short-constructor", "vec1");
+    ensure!(cgmath::vec2(c(0), c(1)) == Vector2::new(c(0), c(1)), "short-constructor", "vec2");
+    ensure!(cgmath::vec3(c(0), c(1), c(2)) == Vector3::new(c(0), c(1), c(2)), "short-constructor", "vec3");
+    ensure!(cgmath::vec4(c(0), c(1), c(2), c(3)) == Vector4::new(c(0), c(1), c(2), c(3)), "short-constructor", "vec4");
+    ensure!(cgmath::point1(c(0)) == Point1::new(c(0)), "short-constructor", "point1");
+    ensure!(cgmath::point2(c(0), c(1)) == Point2::new(c(0), c(1)), "short-constructor", "point2");
+    ensure!(cgmath::point3(c(0), c(1), c(2)) == Point3::new(c(0), c(1), c(2)), "short-constructor", "point3");
     // Quaternion::new takes the scalar first; from_sv(s, v)
     let t: Vec<E> = tags(d, 4);
     let q = Quaternion::new(t[0].clone(), t[1].clone(), t[2].clone(), t[3].clone());
